@@ -209,11 +209,27 @@ def rule_r4(prog, res) -> None:
                     if kk is not None:
                         offs |= {z.id for z in ast.walk(kk) if isinstance(z, ast.Name)}
             tnames = {z.id for z in ast.walk(lp.target) if isinstance(z, ast.Name)}
+
+            def defs_of(v):
+                return [y for y in ast.walk(lp) if (isinstance(y, ast.AugAssign) and isinstance(y.target, ast.Name) and y.target.id == v) or (isinstance(y, ast.Assign) and any(isinstance(t, ast.Name) and t.id == v for t in y.targets))]
+
+            # carried through the loop: accumulated (`v += …`, `v = v + …`) or computed from a variable that is (`k = -v`)
+            carried_vars: set = set()
+            changed_ = True
+            while changed_:
+                changed_ = False
+                for y0 in ast.walk(lp):
+                    for t0 in ([y0.target] if isinstance(y0, ast.AugAssign) else y0.targets if isinstance(y0, ast.Assign) else []):
+                        if isinstance(t0, ast.Name) and t0.id not in carried_vars:
+                            ds = defs_of(t0.id)
+                            if ds and all((isinstance(y, ast.AugAssign) and isinstance(y.op, ast.Add)) or (isinstance(y, ast.Assign) and any(isinstance(z, ast.Name) and (z.id == t0.id or z.id in carried_vars) for z in ast.walk(y.value))) for y in ds):
+                                carried_vars.add(t0.id)
+                                changed_ = True
             for v in sorted(offs - tnames):
-                defs_in = [y for y in ast.walk(lp) if (isinstance(y, ast.AugAssign) and isinstance(y.target, ast.Name) and y.target.id == v) or (isinstance(y, ast.Assign) and any(isinstance(t, ast.Name) and t.id == v for t in y.targets))]
+                defs_in = defs_of(v)
                 if not defs_in:
                     continue
-                carried = all((isinstance(y, ast.AugAssign) and isinstance(y.op, ast.Add)) or (isinstance(y, ast.Assign) and any(isinstance(z, ast.Name) and z.id == v for z in ast.walk(y.value))) for y in defs_in)
+                carried = v in carried_vars
                 if carried:
                     res.ok("C03.R4", res.site(cv, f"offset {v}"), "the offset of the cross-sample diagonals is accumulated over the sample sets")
                 else:
